@@ -32,6 +32,9 @@ Bad == LET e == Tr[l] IN
     \cup (IF e.allmatched => (SumSeq(results, "incr") = e.supplied /\ SumSeq(results, "incruniq") = e.supplieduniq)
           THEN {} ELSE {"SumsToTotalExamples"})
     \cup (IF e.nexamples = e.supplied /\ e.nexamplesuniq = e.supplieduniq THEN {} ELSE {"NExamplesIsSupplied"})
+    \* incremental_coverage() is the same listing reduced to the newly explained counts
+    \cup (IF e.incrview = [i \in 1..Len(results) |-> IF e.dedup THEN results[i].incruniq ELSE results[i].incr]
+          THEN {} ELSE {"IncrementalViewIsTheFullListing"})
 Judge == Bad = {} \/ PrintT(ToJson([line |-> l, tid |-> Tr[l].tid, bad |-> Bad]))
 AllConsumed == PrintT(ToJson([consumed |-> TLCGet("stats").diameter, lines |-> Len(Tr)]))
 =============================================================================
